@@ -460,7 +460,8 @@ theorem pipeline_yields_the_expansion {q : Json} {kvs sec : List (String × Json
     applyInputPlugins [process] q = .ok (expand (swapRemoveKv kvs gridKey) (axes sec)) := by
   have hall : (expand (swapRemoveKv kvs gridKey) (axes sec)).all Json.isObject = true := by
     simp [expand, Json.isObject]
-  simp [applyInputPlugins, applyOps, jsonArrayOp, mapOp, grid_expansion h, flattenInPlace,
+  have ho : q.isObject = true := by rw [h.isObj]; rfl
+  simp [applyInputPlugins, ho, applyOps, jsonArrayOp, mapOp, grid_expansion h, flattenInPlace,
     Json.isArray, flatten1, jsonArrayFlatten, hall]
 
 /-- a query object without grid section comes back alone and unchanged -/
@@ -474,7 +475,18 @@ theorem pipeline_passthrough (kvs : List (String × Json)) (h : lookup kvs gridK
 /-- a rejected query becomes an error response carrying the request -/
 theorem pipeline_error_carries_request (q : Json) (e : ErrKind) (h : process q = .error e) :
     applyInputPlugins [process] q = .error (.plugin q e) := by
-  simp [applyInputPlugins, applyOps, jsonArrayOp, mapOp, h]
+  have ho : q.isObject = true := by
+    cases hq : q.isObject with
+    | true => rfl
+    | false => rw [passthrough_non_object q hq] at h; cases h
+  simp [applyInputPlugins, ho, applyOps, jsonArrayOp, mapOp, h]
+
+/-- a query that is not a JSON object never reaches the plugins: it is answered with an error response
+that echoes it (it used to be flattened — `[q₁, q₂]` became two queries, `[]` none — or to end in an
+invariant error without the request) -/
+theorem pipeline_rejects_non_object {ε : Type} (plugins : List (Json → Except ε Json)) (q : Json)
+    (h : q.isObject = false) : applyInputPlugins plugins q = .error (.notObject q) := by
+  simp [applyInputPlugins, h]
 
 /-! ### a whole query state (`json_array_op` over several queries, as an earlier plugin leaves them) -/
 
